@@ -33,6 +33,14 @@ def fresh_delegating(tag):
     return MetaThreadSafeAttributes("D%s" % tag, (), {"_attributes": ["a"], "__getattr__": __getattr__})
 
 
+def fresh_falsy(tag):
+    """a container-like class: its instances are falsy (len 0), compare equal to each other and hash alike - an instance
+    is still that instance"""
+    return MetaThreadSafeAttributes("F%s" % tag, (), {"_attributes": ["a"], "__len__": lambda self: 0,
+                                                     "__eq__": lambda self, other: type(other) is type(self),
+                                                     "__hash__": lambda self: 7})
+
+
 def ops_for(ninst, nattr):
     ops = [("new",), ("drop",)]
     for i in range(ninst):
@@ -45,7 +53,10 @@ def ops_for(ninst, nattr):
 
 def run_seq(seq, nattr, tag):
     """returns (violation or None, canonical model state)"""
-    if nattr == 4:          # delegating shape: every new instance forwards unknown names to the first one
+    if nattr == 5:          # falsy, mutually equal instances
+        K, K2 = fresh_falsy(tag), None
+        nattr_base = 1
+    elif nattr == 4:        # delegating shape: every new instance forwards unknown names to the first one
         K, K2 = fresh_delegating(tag), None
         nattr_base = 1
     elif nattr == 3:        # inheritance shape: instances of a base class (a) and of its subclass (a, b)
@@ -111,8 +122,9 @@ def run(tier):
     states = 0
     samples = []
     tag = 0
-    for nattr in (1, 2, 3, 4):     # 3 = the inheritance shape, 4 = instances that forward unknown names to the first one
-        ops = ops_for(3, 2 if nattr == 3 else (1 if nattr == 4 else nattr)) + ([("new_sub",)] if nattr == 3 else [])
+    for nattr in (1, 2, 3, 4, 5):  # 3 = the inheritance shape, 4 = instances that forward unknown names to the first one,
+        #                            5 = instances that are falsy and compare equal to each other
+        ops = ops_for(3, 2 if nattr == 3 else (1 if nattr in (4, 5) else nattr)) + ([("new_sub",)] if nattr == 3 else [])
         seen = set()
         frontier = [[("new",)]]
         for d in range(1, depth + 1):
